@@ -326,7 +326,55 @@ func (fx *FuncCtx) run() {
 	fx.initHeap(st)
 	fx.entry = st.clone()
 	x := &Exec{fx: fx, info: info}
-	flow := x.block(fx.decl.Body.List, st)
+	var flow *Flow
+	if len(con.Steps) == 0 {
+		flow = x.block(fx.decl.Body.List, st)
+	} else {
+		// top-level statements one at a time, with the contract's waypoints proved and then assumed
+		flow = &Flow{}
+		cur := st
+		for si, stm := range fx.decl.Body.List {
+			if cur == nil {
+				break
+			}
+			pre := cur.clone()
+			f := x.stmt(stm, cur)
+			flow.absorb(f)
+			cur = f.fall
+			if cur == nil {
+				continue
+			}
+			for ci, sc := range con.Steps[si+1] {
+				lbl := sc.Label
+				if lbl == "" {
+					lbl = fmt.Sprintf("%d", ci+1)
+				}
+				ce := fx.clauseEv(cur, stm.End(), nil)
+				ce.beforeEv = fx.clauseEv(pre, stm.Pos(), nil)
+				t := ce.boolOf(ce.ev(sc.Expr), sc.Expr)
+				fx.obligeSplit("step", fmt.Sprintf("step%d.%s", si+1, lbl), stm.Pos(), cur.pc, t, "waypoint after statement "+fmt.Sprint(si+1)+": "+sc.Text)
+			}
+			if len(con.Steps[si+1]) > 0 {
+				// cut: buffers keep only what the waypoints state about them
+				for o, v := range cur.env {
+					if _, isBuf := v.(VBuf); isBuf {
+						cur.env[o] = fx.havocLike(v, o)
+					}
+				}
+				for _, sc := range con.Steps[si+1] {
+					ce := fx.clauseEv(cur, stm.End(), nil)
+					ce.beforeEv = fx.clauseEv(pre, stm.Pos(), nil)
+					fx.assume(cur.pc, ce.boolOf(ce.ev(sc.Expr), sc.Expr))
+				}
+			}
+		}
+		for n := range con.Steps {
+			if n < 1 || n > len(fx.decl.Body.List) {
+				panic(contractDrift{fmt.Sprintf("contract of %s has a step for statement %d, the body has %d statements", fx.key, n, len(fx.decl.Body.List))})
+			}
+		}
+		flow.fall = cur
+	}
 	if flow.fall != nil {
 		if sig.Results().Len() == 0 || len(fx.results) > 0 {
 			r := &RetState{st: flow.fall, pos: fx.decl.Body.Rbrace, ord: x.nret + 1}
@@ -653,13 +701,13 @@ var builtinSpecs = map[string]string{
 	"hexdigl":    "(define-fun hexdigl ((d Int)) Int (ite (< d 10) (+ 48 d) (+ 87 d)))",
 	"hexdigu":    "(define-fun hexdigu ((d Int)) Int (ite (< d 10) (+ 48 d) (+ 55 d)))",
 	"hex2lower":  "(define-fun hex2lower ((c Int)) BSeq (bs_cat (bs_unit (hexdigl (div c 16))) (bs_unit (hexdigl (mod c 16)))))",
-	"hex6upper":  "(define-fun hex6upper ((c Int)) BSeq (bs_cat (bs_unit (hexdigu (mod (div c 1048576) 16))) (bs_cat (bs_unit (hexdigu (mod (div c 65536) 16))) (bs_cat (bs_unit (hexdigu (mod (div c 4096) 16))) (bs_cat (bs_unit (hexdigu (mod (div c 256) 16))) (bs_cat (bs_unit (hexdigu (mod (div c 16) 16))) (bs_unit (hexdigu (mod c 16))))))))",
+	"hex6upper":  "(define-fun hex6upper ((c Int)) BSeq (bs_cat (bs_unit (hexdigu (mod (div c 1048576) 16))) (bs_cat (bs_unit (hexdigu (mod (div c 65536) 16))) (bs_cat (bs_unit (hexdigu (mod (div c 4096) 16))) (bs_cat (bs_unit (hexdigu (mod (div c 256) 16))) (bs_cat (bs_unit (hexdigu (mod (div c 16) 16))) (bs_unit (hexdigu (mod c 16)))))))))",
 	"utf8enc":    "(declare-fun utf8enc (BSeq) BSeq)",
-	"utf8len":    "(declare-fun utf8len (Int) Int)",
+	"utf8len":    "(declare-fun utf8len (Int) Int)\n(assert (forall ((c Int)) (! (and (= (bs_len (utf8enc (bs_unit c))) (utf8len c)) (<= 1 (utf8len c)) (<= (utf8len c) 4)) :pattern ((utf8enc (bs_unit c))))))",
 	"utf8dec":    "(declare-fun utf8dec (BSeq) BSeq)",
 	"bs_nth":     "(declare-fun bs_nth (BSeq Int) Int)",
 }
-var builtinSpecDeps = map[string][]string{"hex2lower": {"hexdigl"}, "hex6upper": {"hexdigu"}}
+var builtinSpecDeps = map[string][]string{"hex2lower": {"hexdigl"}, "hex6upper": {"hexdigu"}, "utf8len": {"utf8enc"}}
 
 func isBuiltinSpec(n string) bool {
 	_, ok := builtinSpecs[n]
